@@ -13,6 +13,13 @@
 (*   a worker whose batch is empty / shorter than the taper raises (Crash)  *)
 (* Variant "orig": tree before the fix: commit (F10); "fixed": with the     *)
 (* guard `previous batch already reaches the end => nothing to do`.         *)
+(* The parent's preparation step is part of Init: without append the        *)
+(* output file is created empty - `open(output_file, "wb").close()`         *)
+(* truncates whatever an earlier run left under that name (Stales = rows of *)
+(* such a leftover) - with append the offset is the size of what is there.  *)
+(* What-if variant "notrunc" (an existence-only preparation, e.g. `touch`): *)
+(* a longer leftover survives behind the new rows; FinalLength must reject  *)
+(* it (vacuity control, never the registered model).                        *)
 (*                                                                         *)
 (* The output is abstracted to *cells*: maximal row ranges between write    *)
 (* boundaries; file[c] = batch whose rows were written last into cell c.    *)
@@ -21,7 +28,7 @@
 (***************************************************************************)
 EXTENDS Integers, Sequences, FiniteSets, TLC
 
-CONSTANTS Variant,      \* "orig" | "fixed"
+CONSTANTS Variant,      \* "orig" | "fixed" | "notrunc" (what-if)
           T,            \* taper margin (code: 1024)
           NSs, NBs, NPs, Pads, Offs,    \* sets the parameters are drawn from
           MaxP          \* upper bound on workers (size of the per-worker arrays)
@@ -55,6 +62,8 @@ NCells == IF ns <= T THEN 1 ELSE CeilDiv(ns - T, S)      \* #{c >= 0 : Lo(c) < n
 Cells == 0..(NCells - 1)
 Owner(c) == Min(c, LastB)
 CellsOf(b) == IF LastS(b) = ns THEN {c \in Cells : c >= b} ELSE {b} \cap Cells
+\* rows of a file an earlier run may have left under the output name: none, shorter, longer than this run's result
+Stales == {0, 1, ns + pad + 5}
 
 -----------------------------------------------------------------------------
 Init ==
@@ -63,13 +72,14 @@ Init ==
     /\ wpc = [w \in W |-> IF w < np THEN "idle" ELSE "none"]
     /\ wb = [w \in W |-> 0] /\ wcur = [w \in W |-> 0] /\ wmax = [w \in W |-> 0]
     /\ file = [c \in Cells |-> -1]
-    /\ misplaced = FALSE /\ rms = {} /\ size = off /\ pads = {}
+    /\ misplaced = FALSE /\ rms = {} /\ pads = {}
+    /\ \E st \in Stales : size = IF off > 0 \/ Variant # "notrunc" THEN off ELSE st
 
 \* my_function prologue
 Start(w) ==
     /\ wpc[w] = "idle"
     /\ LET b == CeilDiv(w * CHUNK, NB)
-           nothing == Variant = "fixed" /\ b > 0 /\ FirstS(b) + 2 * T >= ns   \* the guard of the fix
+           nothing == Variant # "orig" /\ b > 0 /\ FirstS(b) + 2 * T >= ns   \* the guard of the fix
        IN /\ wb' = [wb EXCEPT ![w] = b]
           /\ wmax' = [wmax EXCEPT ![w] = IF w = np - 1 THEN ns ELSE (w + 1) * CHUNK]
           /\ wcur' = [wcur EXCEPT ![w] = off + (IF w = 0 THEN 0 ELSE FirstS(b) + T)]
